@@ -923,8 +923,8 @@ def run(ctx: Ctx):
             replay_case(ctx, impl, drv, json.loads(f.read_text()))
         converter_cases(ctx, impl, drv, rng, ctx.budget(2000, 20000))
         me = sys.modules[__name__]
-        c14_tms.genfromtxt_cases(ctx, impl, drv, rng, ctx.budget(400, 6000), me)
-        for _ in range(ctx.budget(250, 3000)):
+        c14_tms.genfromtxt_cases(ctx, impl, drv, rng, ctx.budget(400, 5000), me)
+        for _ in range(ctx.budget(250, 2500)):
             c14_tms.tms_case(ctx, impl, drv, rng, quick, me)
         nb = ctx.budget(400, 5000)
         for _ in range(nb):
